@@ -71,6 +71,16 @@ static std::string gen_hex_text(Rng &r, size_t nbytes, int kind)
     }
     if (kind >= 1 && r.chance(1, 2)) s += ws[r.below(6)];
     static const char bad[] = {'g', 'G', 'x', ':', '-', '/', '@', '`', '\0', (char)0x80, (char)0xff, '\x0e', '\x1f', '!', 'z', 'h', '_', '9' + 1, 'F' + 1, 'f' + 1, '0' - 1, 'A' - 1, 'a' - 1};
+    // an illegal character: half the time from the curated boundary list above, half the time ANY byte that is
+    // neither a hex digit nor one of the six white-space characters (a decoder must reject all 228 of them)
+    auto bad_char = [&]() -> char {
+        if (r.chance(1, 2)) return bad[r.below(sizeof bad)];
+        for (;;) {
+            unsigned char ch = (unsigned char)r.below(256);
+            if (isxdigit(ch) || ch == ' ' || ch == '\t' || ch == '\r' || ch == '\n' || ch == '\f' || ch == '\v') continue;
+            return (char)ch;
+        }
+    };
     int nmut = kind >= 2 ? 1 + (int)r.below(2) : 0;
     for (int mu = 0; mu < nmut; ++mu) {
         // digit positions of the current text
@@ -79,8 +89,8 @@ static std::string gen_hex_text(Rng &r, size_t nbytes, int kind)
         int what = kind == 2 ? (int)r.below(2) : 2 + (int)r.below(2);
         if (mu == 1) what = (int)r.below(4); // second mutation: anything, so parity and legality combine freely
         switch (what) {
-        case 0: s.insert(s.begin() + (long)(s.empty() ? 0 : r.below(s.size() + 1)), bad[r.below(sizeof bad)]); break;          // insert illegal
-        case 1: if (!dpos.empty()) s[dpos[r.below(dpos.size())]] = bad[r.below(sizeof bad)]; else s += bad[r.below(sizeof bad)]; break; // replace a digit: parity kept
+        case 0: s.insert(s.begin() + (long)(s.empty() ? 0 : r.below(s.size() + 1)), bad_char()); break;          // insert illegal
+        case 1: if (!dpos.empty()) s[dpos[r.below(dpos.size())]] = bad_char(); else s += bad_char(); break; // replace a digit: parity kept
         case 2: s.insert(s.begin() + (long)(s.empty() ? 0 : r.below(s.size() + 1)), digs[r.below(22)]); break;                 // extra digit
         default: if (!dpos.empty()) s.erase(s.begin() + (long)dpos[r.below(dpos.size())]); else s += digs[r.below(22)]; break;  // missing digit
         }
